@@ -170,7 +170,7 @@ struct Expect {
   size_t upper_bound = 0;      // size of the message without any compression
   bool body_when_truncated = true;   // check what a truncated message still carries (C35); C37 only checks limit / TC / header
 };
-struct RespInfo { bool tc = false; bool complete = false; size_t len = 0; int records_present = 0; int compressed_names = 0; size_t max_ptr_src = 0; bool known_skipped = false; };
+struct RespInfo { bool tc = false; bool complete = false; size_t len = 0; int records_present = 0; int compressed_names = 0; size_t max_ptr_src = 0; };
 
 static inline bool labels_eq(const Labels &a, const Labels &b, bool nocase) {
   if (a.size() != b.size()) return false;
@@ -220,7 +220,6 @@ static inline void check_response(const std::vector<uint8_t> &m, const Expect &e
   CHECK((fl & F_RCODE) == e.rcode, mkkey(P, "response-rcode"), "rcode %d, the callback responded with %d", fl & F_RCODE, e.rcode);
   CHECK(n <= e.limit, mkkey(P, "response-exceeds-limit"), "response of %zu bytes to a client whose limit is %zu (%s)", n, e.limit, e.tcp ? "TCP" : "UDP");
   bool tc = (fl & F_TC) != 0; ri->tc = tc;
-  bool k_counts = verif_known("C35/truncated-counts-not-adjusted"), k_tail = verif_known("C35/truncated-tail-not-from-message"), k_ptr = verif_known("C35/ptr-offset-ge-16384");
   if (tc) {
     if (e.full_size >= 0) CHECK((size_t)e.full_size > e.limit, mkkey(P, "spurious-truncation"), "TC set on a %zu-byte response although the complete message has %ld bytes and the limit is %zu", n, e.full_size, e.limit);
     else CHECK(e.upper_bound > e.limit, mkkey(P, "spurious-truncation"), "TC set on a %zu-byte response although even the uncompressed message (%zu bytes) fits the limit %zu", n, e.upper_bound, e.limit);
@@ -244,7 +243,7 @@ static inline void check_response(const std::vector<uint8_t> &m, const Expect &e
     if (!nm.ok || off + 4 > n) { ran_out = true; ran_out_what = "question"; if (!tc) VERIF_FAIL(mkkey(P, "response-malformed"), "question %u at offset %zu is not decodable (message %zu bytes)", i, start, n); break; }
     CHECK(!nm.fwd_ptr, mkkey(P, "forward-pointer"), "question %u at offset %zu uses a pointer that does not point backwards", i, start);
     bool same = labels_eq(nm.labels, e.q[i].name, false);
-    if (!same && ptr_wraps(p, n, start, e.q[i].name)) { if (k_ptr) { ri->known_skipped = true; return; } VERIF_FAIL("C35/ptr-offset-ge-16384", "question %u at offset %zu: pointer to an occurrence at offset >= 16384 was emitted modulo 0x4000; decoded \"%s\" want \"%s\"", i, start, esc(join(nm.labels), 80).c_str(), esc(join(e.q[i].name), 80).c_str()); }
+    if (!same && ptr_wraps(p, n, start, e.q[i].name)) { VERIF_FAIL("C35/ptr-offset-ge-16384", "question %u at offset %zu: pointer to an occurrence at offset >= 16384 was emitted modulo 0x4000; decoded \"%s\" want \"%s\"", i, start, esc(join(nm.labels), 80).c_str(), esc(join(e.q[i].name), 80).c_str()); }
     CHECK(same, mkkey(P, "question-mismatch"), "question %u decodes to \"%s\", the request asked \"%s\"", i, esc(join(nm.labels), 100).c_str(), esc(join(e.q[i].name), 100).c_str());
     CHECK(!nm.too_long, mkkey(P, "name-too-long"), "question %u expands to more than 255 octets", i);
     uint16_t t = rd16(p + off), c = rd16(p + off + 2); off += 4;
@@ -256,7 +255,7 @@ static inline void check_response(const std::vector<uint8_t> &m, const Expect &e
     const XRec &x = e.sec[s][i];
     size_t start = off; NameResult nm = parse_name(p, n, &off);
     bool hdr_ok = nm.ok && off + 10 <= n;
-    if ((!nm.ok || !labels_eq(nm.labels, x.owner, true)) && ptr_wraps(p, n, start, x.owner)) { if (k_ptr) { ri->known_skipped = true; return; } VERIF_FAIL("C35/ptr-offset-ge-16384", "section %d record %u owner at offset %zu: pointer to an occurrence at offset >= 16384 was emitted modulo 0x4000; decoded \"%s\" want \"%s\"", s, i, start, esc(join(nm.labels), 80).c_str(), esc(join(x.owner), 80).c_str()); }
+    if ((!nm.ok || !labels_eq(nm.labels, x.owner, true)) && ptr_wraps(p, n, start, x.owner)) { VERIF_FAIL("C35/ptr-offset-ge-16384", "section %d record %u owner at offset %zu: pointer to an occurrence at offset >= 16384 was emitted modulo 0x4000; decoded \"%s\" want \"%s\"", s, i, start, esc(join(nm.labels), 80).c_str(), esc(join(x.owner), 80).c_str()); }
     if (!hdr_ok) { ran_out = true; ran_out_what = "record header"; if (!tc) VERIF_FAIL(mkkey(P, "response-malformed"), "section %d record %u at offset %zu is not decodable (message %zu bytes)", s, i, start, n); break; }
     CHECK(!nm.fwd_ptr, mkkey(P, "forward-pointer"), "section %d record %u owner at offset %zu uses a pointer that does not point backwards", s, i, start);
     CHECK(labels_eq(nm.labels, x.owner, true), mkkey(P, "record-mismatch"), "section %d record %u owner decodes to \"%s\", added \"%s\"", s, i, esc(join(nm.labels), 100).c_str(), esc(join(x.owner), 100).c_str());
@@ -273,8 +272,7 @@ static inline void check_response(const std::vector<uint8_t> &m, const Expect &e
         CHECK(rdlen == x.datalen, mkkey(P, "record-mismatch"), "section %d record %u: RDLENGTH %u, %zu bytes were added", s, i, rdlen, x.datalen);
         size_t avail = n - rdoff; if (avail > x.datalen) avail = x.datalen;
         if (avail && memcmp(p + rdoff, x.data, avail) != 0) {
-          if (k_tail) { verif_known_skipped("C35/truncated-tail-not-from-message"); ri->known_skipped = true; }
-          else { size_t d = 0; while (d < avail && p[rdoff + d] == x.data[d]) d++;
+          { size_t d = 0; while (d < avail && p[rdoff + d] == x.data[d]) d++;
             VERIF_FAIL("C35/truncated-tail-not-from-message", "truncated response (%zu bytes, %s): the %zu byte(s) after the header of section %d record %u are not the data that was added (first difference at message offset %zu: sent %02x, added %02x) - bytes that were never written into the message were sent", n, e.tcp ? "TCP" : "UDP", avail, s, i, rdoff + d, p[rdoff + d], x.data[d]); }
         }
       }
@@ -282,7 +280,7 @@ static inline void check_response(const std::vector<uint8_t> &m, const Expect &e
     }
     if (x.is_name) {
       size_t o2 = rdoff; NameResult tn = parse_name(p, n, &o2);
-      if ((!tn.ok || !labels_eq(tn.labels, x.target, true)) && ptr_wraps(p, n, rdoff, x.target)) { if (k_ptr) { ri->known_skipped = true; return; } VERIF_FAIL("C35/ptr-offset-ge-16384", "section %d record %u rdata name at offset %zu: pointer to an occurrence at offset >= 16384 was emitted modulo 0x4000; decoded \"%s\" want \"%s\"", s, i, rdoff, esc(join(tn.labels), 80).c_str(), esc(join(x.target), 80).c_str()); }
+      if ((!tn.ok || !labels_eq(tn.labels, x.target, true)) && ptr_wraps(p, n, rdoff, x.target)) { VERIF_FAIL("C35/ptr-offset-ge-16384", "section %d record %u rdata name at offset %zu: pointer to an occurrence at offset >= 16384 was emitted modulo 0x4000; decoded \"%s\" want \"%s\"", s, i, rdoff, esc(join(tn.labels), 80).c_str(), esc(join(x.target), 80).c_str()); }
       CHECK(tn.ok, mkkey(P, "response-malformed"), "section %d record %u: the name in the rdata (offset %zu) is not decodable", s, i, rdoff);
       CHECK(o2 == rdoff + rdlen, mkkey(P, "rdlength-name"), "section %d record %u: RDLENGTH %u but the name in the rdata occupies %zu byte(s)", s, i, rdlen, o2 - rdoff);
       CHECK(!tn.fwd_ptr, mkkey(P, "forward-pointer"), "section %d record %u rdata name at offset %zu uses a pointer that does not point backwards", s, i, rdoff);
@@ -298,7 +296,6 @@ static inline void check_response(const std::vector<uint8_t> &m, const Expect &e
   }
   if (ran_out) {
     // only reachable with TC set: the header announces something that is not (completely) there
-    if (k_counts) { verif_known_skipped("C35/truncated-counts-not-adjusted"); ri->known_skipped = true; return; }
     VERIF_FAIL("C35/truncated-counts-not-adjusted", "truncated response (%zu bytes, TC set, %s): header counts QD=%u AN=%u NS=%u AR=%u but the message ends inside a %s at offset %zu - the counts describe records that are not present", n, e.tcp ? "TCP" : "UDP", qd, cnt[0], cnt[1], cnt[2], ran_out_what, off);
   }
   if (!tc) CHECK(off == n, mkkey(P, "trailing-bytes"), "%zu byte(s) after the last record", n - off);
